@@ -22,7 +22,7 @@ EXPLANATION = (
     "level table (shared with C17.1); (4) enum tags equal parquet.thrift and every Thrift wire-type tag "
     "equals the compact protocol; (5) the codec tag alone decides how page bytes are interpreted "
     "(decompress_page and the four loaders per codec value and size relation); (6) no decoder-side "
-    "function assembles a multi-byte integer big-endian; (7) page geometry, by the loader traces: after a "
+    "function assembles a multi-byte integer big-endian, and no byte assembly of type int can carry bit 31 into a 64-bit result (sign extension on widening); (7) page geometry, by the loader traces: after a "
     "dictionary page the first data page is looked for at dictionary offset + header size + compressed "
     "(stored) size whatever the codec, a data page header is read at data_start_offset + bytes already "
     "consumed, and the loader records header size and stored size as the amounts the cursor advances by. "
@@ -55,6 +55,8 @@ def run(ctx):
     efns = P.funcs_under("src/encoding/", "src/compression/", "src/reader/", "src/thrift/", "src/core/", "src/util/", "src/metadata/")
     ctx.floor("C06 functions scanned for byte order", len(efns), 350)
     endian.check(ctx, efns)
+    from ..rules import widen
+    widen.check_signext(ctx, sorted(set(P.rel(f.file) for f in efns)))
     # ---- (1) switches with error defaults
     # the codec table of decompress_page (every enum value and a value outside it) is decided by
     # execution in codecrepr.reader above, the physical-type table of carquet_decode_plain here:
